@@ -13,7 +13,7 @@ ASSUMPTIONS = ['hashlib for MD5/SHA/BLAKE2', 'own MD4/SHA-0/BLAKE references', '
 ANCHORS = [('padding.py', 'blockiterator.iterblocks'), ('blake.py', 'Blake2.iterblocks'), ('blake.py', 'Blake2.update'), ('blake.py', 'Blake.update'),
            ('sha.py', 'SHA1.update'), ('sha.py', 'SHA2.update'), ('md.py', 'MD4.update'), ('md.py', 'MD5.update'),
            ('nilsimsa.py', 'Nilsimsa.update'), ('nilsimsa.py', 'Nilsimsa.digest')]
-REQUIRED = ['nilsimsa:reuse==model', 'refused-piece:piecewise==reference', 'fresh-object-update==reference', 'interleaved:piecewise==reference', 'piecewise==oneshot', 'piecewise==reference', 'bitcnt-after-piece', 'nilsimsa:cut==oneshot', 'nilsimsa:cut==model']
+REQUIRED = ['used-object:piecewise==reference', 'nilsimsa:reuse==model', 'refused-piece:piecewise==reference', 'fresh-object-update==reference', 'interleaved:piecewise==reference', 'piecewise==oneshot', 'piecewise==reference', 'bitcnt-after-piece', 'nilsimsa:cut==oneshot', 'nilsimsa:cut==model']
 NSHARDS = 14
 SAN = {'quick': (2, 40), 'thorough': (2, 40)}
 HASHES = c01.ALGS + ['blake224', 'blake256', 'blake384', 'blake512', 'blake2b', 'blake2s']
@@ -62,6 +62,8 @@ def cases(tier, rng):
     for j in range(len(HASHES) * (6 if tier == 'quick' else 40)):
         yield {'k': 'interleaved', 'h': HASHES[j % len(HASHES)], 'other': HASHES[(j * 7 + j // len(HASHES)) % len(HASHES)], 'j': j}
     for name in HASHES:
+        for j in range(4 if tier == 'quick' else 30):
+            yield {'k': 'used-object', 'h': name, 'j': j}
         for j in range(4 if tier == 'quick' else 30):
             yield {'k': 'refused-piece', 'h': name, 'j': j}
         if not name.startswith('blake'):
@@ -145,6 +147,33 @@ def run(case, ctx, rng):
             ctx.eq('interleaved:piecewise==reference', got[1], external(other, N), stream='second', **det)
             ctx.eq('interleaved:piecewise==reference', got[2], external(name, M[:7]), stream='one-shot sibling', **det)
             ctx.eq('bitcnt-after-piece', list(got[3]), [8 * B, 16 * B], interleaved=True, **det)
+    elif k == 'used-object':
+        # the streamed object has a past: one-shot digests with options (salt, bit length, output length), an abandoned stream
+        name = case['h']
+        B, w = info(name)
+        ctx.cls((name, 'used-object', case['j'] % 4))
+        M = rng.randbytes(2 * B + rng.choice([0, 1, B - 1])); X = rng.randbytes(40)
+        def run_():
+            h = make(name)
+            if name in ('blake2b', 'blake2s'):
+                h(X, outlen=7, salt=bytes(range(w // 4)))
+            elif name.startswith('blake'):
+                h(X, rng.getrandbits(64) | 1)
+                h(X, 5, 77)
+            else:
+                h(X, 77)
+            if case['j'] % 2:
+                h.initstate(); h.update(M[:B])            # an abandoned stream
+            h.initstate()
+            h.update(M[:B])
+            return h.update(M[B:], padding=True), make(name)(M)
+        got = call(run_)
+        det = dict(h=name, lenM=len(M))
+        if is_exc(got):
+            ctx.eq('used-object:piecewise==reference', got, external(name, M), **det)
+        else:
+            ctx.eq('used-object:piecewise==reference', got[0], external(name, M), **det)
+            ctx.eq('piecewise==oneshot', got[0], got[1], used_object=True, **det)
     elif k == 'refused-piece':
         # fault sequence: a piece that is refused (not block-aligned without padding, or not bytes) in the middle of a stream;
         # the stream continues with correct pieces and must still give the one-shot digest
@@ -155,7 +184,7 @@ def run(case, ctx, rng):
         def run_():
             h = make(name); h.initstate()
             h.update(M[:B])
-            r1 = call(h.update, M[B:B + 5])                 # partial block without padding: refused
+            r1 = call(h.update, M[B:B + 5] if case['j'] % 2 else M[:2 * B + 9])     # partial (also after whole blocks) without padding: refused
             r2 = call(h.update, 'not bytes')
             c = h.padmethod.bitcnt
             h.update(M[B:2 * B])
